@@ -65,6 +65,10 @@ func genHist(r *vh.Rand, prop string, idx int) Hist {
 		}
 		h.Blobbers = append(h.Blobbers, b)
 	}
+	// enterprise-only worlds (un-modelled: oracle only), possible when electra is active from the start
+	if (prop == "C13" || prop == "C09") && c.Electra == 0 && r.Chance(1, 3) {
+		h.Ent = true
+	}
 	h.NCli = 3
 	h.CliBal = 1e14
 	h.OwnerBal = r.PickU64([]uint64{1e14, 1e14, 3e10})
@@ -758,7 +762,67 @@ func (g *Gen) Script(run *Run) *Op {
 		}
 		return o
 	}
+	freeOp := func(nonce int64) *Op {
+		g.NLabel++
+		var bl []int
+		for _, b := range r.Perm(nb) {
+			if g.eligible(s, h, b, h.Conf.FreeSize) && len(bl) < 2 {
+				bl = append(bl, b)
+			}
+		}
+		for b := 0; len(bl) < 2 && b < nb; b++ {
+			bl = append(bl, b)
+		}
+		return &Op{K: "freealloc", Dt: 5, S: refClient + r.Intn(h.NCli), A: g.NLabel, B: 0, N: nonce, Bl: bl, F: pickF(r, []float64{1, 0.5, 2})}
+	}
 	switch g.script {
+	case "free-out-of-order-replay":
+		// markers of one assigner redeemed out of numeric nonce order, then every one of them replayed
+		order := []int64{200, 100, 150, 300, 50}
+		switch {
+		case g.step == 0:
+			return &Op{K: "addassigner", Dt: 5, S: refOwner, C: refAssigner, F: 100, G: 1000}
+		case g.step <= 4:
+			return freeOp(order[g.step-1])
+		case g.step <= 9:
+			return freeOp(order[r.Intn(4)])
+		}
+	case "enterprise-close":
+		// an enterprise allocation closed in the second it started (zero pro-rata cost) or later
+		switch {
+		case g.step == 0:
+			o := newAlloc()
+			if r.Chance(1, 2) {
+				o.N = r.Pick64([]int64{20 * MB, 10 * MB, GB})
+			}
+			return o
+		case g.step == 1 && r.Chance(1, 2):
+			l, a := firstOpen()
+			if a == nil {
+				break
+			}
+			g.step = 3
+			return &Op{K: "cancel", Dt: 0, S: a.Owner, A: l}
+		case g.step <= 2:
+			return upload(g.step-1, false)
+		case g.step == 3:
+			l, a := firstOpen()
+			if a == nil {
+				break
+			}
+			if r.Chance(1, 2) {
+				return &Op{K: "cancel", Dt: r.Pick64([]int64{0, 5, 60, 600}), S: a.Owner, A: l}
+			}
+			return &Op{K: "finalize", Dt: a.Exp - run.Now + r.Pick64([]int64{0, 1, 100}), Dr: r.Pick64([]int64{0, 10}), S: a.Owner, A: l}
+		case g.step == 4:
+			return newAlloc()
+		case g.step == 5:
+			l, a := firstOpen()
+			if a == nil {
+				break
+			}
+			return &Op{K: "cancel", Dt: r.Pick64([]int64{0, 0, 60}), S: a.Owner, A: l}
+		}
 	case "fail-then-replace-alive":
 		// uploads, challenges that fail or expire after the last passed one (LatestSuccessful < LatestFinalized),
 		// then the owner replaces that alive blobber: the finalization penalty must come back to the write pool
